@@ -231,6 +231,39 @@ def drop_log_macros(text, applied):
         applied.add("R7 tracing log statement %s!(..) dropped" % mm.group(1))
 
 
+def rewrite_break_value(text, block, applied):
+    """R13: Verus has no `break <value>`. `let x = loop { .. break v; .. };` is written as
+    `let x; loop { .. { x = v; break; } .. }` (deferred initialisation: the same single assignment)."""
+    while True:
+        m = R.mask(text)
+        mm = re.search(r"\blet\s+(mut\s+)?(\w+)\s*=\s*loop\s*\{", m)
+        if not mm:
+            return text
+        name = mm.group(2)
+        bo = mm.end() - 1
+        close = _paren_end(m, bo, "{", "}")
+        body = text[bo:close + 1]
+        mb = R.mask(body)
+        out, last, n = [], 0, 0
+        for b in re.finditer(r"\bbreak\s+([^;{}]+);", mb):
+            out.append(body[last:b.start()])
+            out.append("{ loop_value_%s = %s; break; }" % (name, body[b.start(1):b.end(1)].strip()))
+            last = b.end()
+            n += 1
+        out.append(body[last:])
+        if n == 0:
+            raise R.LostAnchor("%s: break_value: no `break <value>;` in `let %s = loop`" % (block.path, name))
+        body = "".join(out)
+        # the trailing `;` of the let statement
+        k = close + 1
+        while k < len(text) and text[k] in " \t\n":
+            k += 1
+        end = k + 1 if k < len(text) and text[k] == ";" else close + 1
+        text = text[:mm.start()] + "let loop_value_%s;\n        loop %s\n        let %s%s = loop_value_%s;" % (
+            name, body, mm.group(1) or "", name, name) + text[end:]
+        applied.add("R13 `let %s = loop { .. break v; }` -> deferred initialisation + plain break" % name)
+
+
 def rewrite_mut_self(text, block, applied):
     """R11: Verus has no `mut self` receiver. `fn f(mut self, ..) { B }` is written as
     `fn f(self, ..) { let mut this = self; B[self := this] }` - the same move into a mutable local
@@ -356,8 +389,31 @@ def process_fn(text, block, applied, canary=False):
                 raise R.LostAnchor("%s: drop %r expected %d occurrence(s), found %d" % (block.path, old, n, text.count(old)))
             text = text.replace(old, "")
             applied.add("R7 dropped `%s`" % old)
+    for key, val in d:
+        if key == "body_from":
+            # R12: only a SUFFIX of the body is taken: everything between the opening brace and
+            # the anchor is dropped (stated in the unit: that prefix is not under contract)
+            anchor, _new, _n = _take_backticked(val)
+            mt = R.mask(text)
+            bo = None
+            par = 0
+            for i, ch in enumerate(mt):
+                if ch in "([":
+                    par += 1
+                elif ch in ")]":
+                    par -= 1
+                elif ch == "{" and par == 0:
+                    bo = i
+                    break
+            if bo is None or text.count(anchor) != 1 or text.index(anchor) < bo:
+                raise R.LostAnchor("%s: body_from anchor %r not found exactly once in the body" % (block.path, anchor))
+            dropped = text[bo + 1:text.index(anchor)]
+            text = text[:bo + 1] + "\n        " + text[text.index(anchor):]
+            applied.add("R12 body prefix dropped (%d lines before `%s`): not under contract" % (dropped.count("\n"), anchor))
     if any(k == "expand_matches" for k, _ in d):
         text = expand_matches(text, applied)
+    if any(k == "break_value" for k, _ in d):
+        text = rewrite_break_value(text, block, applied)
     if any(k == "mutself" for k, _ in d):
         text = rewrite_mut_self(text, block, applied)
     if any(k == "droplog" for k, _ in d):
